@@ -279,6 +279,11 @@ func init() {
 		n.target = strArg(a[1])
 		return nil
 	})
+	reg("FSRemove", func(fr *frame, a []value) value {
+		n := fr.i.fs().mk(strArg(a[0]), 0)
+		delete(n.parent.children, n.name)
+		return nil
+	})
 	reg("FSChdir", func(fr *frame, a []value) value { fr.i.fs().cwd = strArg(a[0]); return nil })
 
 	externals["os.Getwd"] = func(fr *frame, a []value) value { return tuple{fr.i.fs().cwd, iface{}} }
